@@ -224,6 +224,11 @@ BAD_TEMPLATES = [
     ("{fn}({ctx}, x~UNHASH) > {v}", {}, "condition that is not a function"),
     ("{fn}(!!{v})", {}, "second focus without first"),
     ("{fn}({ctx}, !!{v})", {}, "second focus without first"),
+    ("{fn} > f(!!{v})", {}, "second focus without first, inside a nested call"),
+    ("{fn}(f(!!{v}))", {}, "second focus without first, inside a nested call"),
+    ("{fn}(x, f({ctx}, !!{v}))", {}, "second focus without first, inside a nested call"),
+    ("{fn} > f > f(!!{v})", {}, "second focus without first, two levels down"),
+    ("/ > {v}", {}, "unresolvable reference (empty path)"),
     ("{fn}({v})", {"overridable": True}, "no focus where overriding requires one"),
     ("{fn}({ctx}, {v})", {"overridable": True}, "no focus where overriding requires one"),
     ("{fn}({v})", {"overridable": True, "probe_type": "immediate"}, "no focus where overriding requires one (immediate type given explicitly)"),
